@@ -220,3 +220,14 @@ package proj
 //@   requires [captured] *this != nil
 //@   ensures [formula] err == nil && x == (*this).X0 + ((*this).sphere ? (*this).A * (*g - lat) : (*this).A * (*g - js_mlfn(*e0, *e1, *e2, *e3, lat))) * sin(*ns * js_adjust_lon(lon - (*this).Long0)) && y == (*this).Y0 + *rh - ((*this).sphere ? (*this).A * (*g - lat) : (*this).A * (*g - js_mlfn(*e0, *e1, *e2, *e3, lat))) * cos(*ns * js_adjust_lon(lon - (*this).Long0))
 //@   modifies nothing
+
+//@ func Krovak$2
+//@   prop C08, C09
+//@   mode real
+//@   requires [captured] *this != nil
+//@   ensures [position_returned] err == nil ==> lon == (*this).Long0 - deltav / *Alfa && lat == fi1
+//@   ensures [converged] err == nil ==> ok == 1 && iter < 15
+//@   modifies nothing
+//@   loop 1 `for {`
+//@     invariant 0 <= iter && iter <= 15 && (ok == 0 || ok == 1) && x == (*this).Long0 - deltav / *Alfa && (iter > 0 ==> y == fi1) && (ok == 1 ==> iter > 0)
+//@     decreases 15 - iter when ok == 0
